@@ -92,7 +92,7 @@ PROPS = {
         ],
     },
     "C12": {
-        "lean_modules": ["RdestModel.Props.C12"],
+        "lean_modules": ["RdestModel.Props.C12", "RdestModel.Props.C12Whole"],
         "cases": {"quick": 1500, "thorough": 60000},
         "rule": "n/100 cases are closed-loop runs (`sys`, as in C01: real manager and real connection tasks, events produced by the tasks themselves, not "
                 "scripted); command histories (4..45 events, 1..4 peers, 3..14 pieces on both sides of END_GAME_LIMIT) on the real Session through the hooks: add "
